@@ -162,3 +162,31 @@ impl Topic {
         ensures final(self).partitions@.len() <= u32::MAX,
     { self.delete_persisted_partitions(count) }
 }
+
+// ---- COMPOSITION harness (link pass 2): the runtime half of [C05.sim.update_user] of units/replay_more/lemmas.rs --------------------
+// That lemma takes the runtime effect of an acknowledged UpdateUser as the spec function `rt_update_user` over the statement's user
+// catalogue (id -> CUser), "what [C06.users.update] says (`updated_user`)", cited by label. The harness calls the real
+// System::update_user and proves exactly that for the catalogue read off the RUNNING system: username / password / status / permissions
+// are the record's fields, the token component is ANY function of its token map (uninterpreted: update_user keeps that map object).
+// (vocabulary of units/replay_more/lemmas.rs, repeated word for word: CTok, CUser, rt_update_user)
+pub struct CTok { pub digest: Name, pub expiry_at: Option<IggyTimestamp> }
+pub struct CUser { pub username: Name, pub password: Name, pub status: UserStatus, pub permissions: Option<Permissions>, pub tokens: Map<Name, CTok> }
+pub open spec fn rt_update_user(a: Map<u32, CUser>, uid: u32, username: Option<Name>, status: Option<UserStatus>) -> Map<u32, CUser> {
+    a.insert(uid, CUser { username: (if username is Some { username->0 } else { a[uid].username }), status: (if status is Some { status->0 } else { a[uid].status }), ..a[uid] })
+}
+pub uninterp spec fn rt_tokens_view(toks: Map<Name, PersonalAccessToken>) -> Map<Name, CTok>;
+pub open spec fn rt_abs_user(u: User) -> CUser {
+    CUser { username: u.username, password: u.password, status: u.status, permissions: u.permissions, tokens: rt_tokens_view(u.personal_access_tokens@) }
+}
+pub open spec fn rt_abs_users(m: Map<u32, User>) -> Map<u32, CUser> { Map::new(m.dom(), |k: u32| rt_abs_user(m[k])) }
+impl System {
+    // label: C06.link.replay_more.rt_update_user
+    pub fn sim_update_user(&mut self, session: &Session, user_id: &Identifier, username: Option<Name>, status: Option<UserStatus>) -> (r: Result<&User, IggyError>)
+        requires users_wf(old(self)), names_unique(old(self)),
+        ensures
+            r is Ok ==> (user_of(old(self), user_id) matches Some(uid)
+                && rt_abs_users(final(self).users@) =~= rt_update_user(rt_abs_users(old(self).users@), uid, username, status)),
+            // a refused command is not journalled and leaves the catalogue alone
+            r is Err ==> rt_abs_users(final(self).users@) =~= rt_abs_users(old(self).users@),
+    { self.update_user(session, user_id, username, status) }
+}
